@@ -278,6 +278,19 @@ def run(ctx, res):
                         xs = SliceInfo(fg, fg.operand_nodes(k, x))
                         if not any(any(n.endswith("::len") for n in callee_names(t2)) for (_b, _bi, t2) in xs.calls):
                             continue
+                        # a flush test: the branch on it writes / sends / empties the buffer (an unrelated length
+                        # comparison, e.g. a bounds pre-check, is not one)
+                        tt_ = blk["t"]
+                        flushes = False
+                        if tt_["k"] == "switch" and tt_["o"]["k"] != "const" and tt_["o"]["p"]["l"] == s["p"]["l"]:
+                            for tgt in dict.fromkeys([tb for _v, tb in tt_["ts"]] + [tt_["else"]]):
+                                for xb in b.reachable_from(tgt):
+                                    if b.edge_dominates(bi, tgt, xb):
+                                        ct = b.blocks[xb]["t"]
+                                        if ct["k"] == "call" and callee_names(ct) and callee_names(ct)[-1].rsplit("::", 1)[-1] in ("write_chunk", "send_to", "clear"):
+                                            flushes = True
+                        if not flushes:
+                            continue
                         n_flush += 1
                         op = s["r"]["op"]
                         if flipped:
